@@ -3,7 +3,7 @@ Theorems: coq/Props/C04.v.  Streams: G-width through one-instruction / one-direc
 import vlib
 
 RULE = ("G-width: (type in u/s/i/#d) x width N x value v in [-2^N-4, 2^N+4] (exhaustive for N <= 8 quick, <= 13 thorough; "
-        "boundary neighbourhoods for N up to 256) x spelling (decimal, hex, binary, negated, expression, difference/sum of sized literals) assembled by the "
+        "boundary neighbourhoods for N up to 256; the same value arriving through a constant, a by-value local of an asm block or a nested sub-rule) x spelling (decimal, hex, binary, negated, expression, difference/sum of sized literals) assembled by the "
         "real crate as `t {x: TN} => x` / `#dN v`; non-trivial = distinct (type, N, v) with v within 4 of a range boundary")
 
 
@@ -62,6 +62,23 @@ def program(kind, n, text, unused=False):
         return "#d%d %s\n" % (n, text)
     prod = "0x55" if unused else "x"
     return "#ruledef\n{\n    t {x: %s%d} => %s\n}\nt %s\n" % (kind, n, prod, text)
+
+
+def program_route(kind, n, text, route):
+    """the same typed parameter reached by a value that does not stand literally in the instruction"""
+    if route == "via_const":
+        return "#ruledef\n{\n    t {x: %s%d} => x\n}\nk = %s\nt k\n" % (kind, n, text)
+    if route == "via_later_const":
+        return "#ruledef\n{\n    t {x: %s%d} => x\n}\nt k\nk = %s\n" % (kind, n, text)
+    if route == "via_local":
+        # an outer rule with a wide SIZED signed parameter hands the value on by value (a local) into an asm block
+        return ("#ruledef\n{\n    t {x: %s%d} => x\n    w {y: s64} =>\n    {\n        q = y\n        asm { t {q} }\n    }\n}\nw %s\n" % (kind, n, text))
+    if route == "via_nested":
+        return "#subruledef inner\n{\n    {x: %s%d} => x\n}\n#ruledef\n{\n    t {a: inner} => a\n}\nt %s\n" % (kind, n, text)
+    raise ValueError(route)
+
+
+ROUTES = ["via_const", "via_later_const", "via_local", "via_nested"]
 
 
 def gen_cases(chk):
@@ -124,6 +141,16 @@ def run(chk):
         impl_lines.append("A\t10\t1\t1\t" + vlib.hx(program(kind, n, text, unused=True)))
         model_lines.append("T %s %d %s" % (kind, n, ("%x" % v) if v >= 0 else "-%x" % -v))
         meta.append((kind, n, v, how, sz, True))
+    # the "route" family: the range rule is about the VALUE, whatever way it reaches the typed parameter
+    for kind in "usi":
+        for n in (1, 4, 8, 16):
+            for b in boundaries(kind, n) + [0]:
+                for dv in (-2, -1, 0, 1):
+                    for route in ROUTES:
+                        v = b + dv
+                        impl_lines.append("A\t10\t1\t1\t" + vlib.hx(program_route(kind, n, str(v), route)))
+                        model_lines.append("T %s %d %s" % (kind, n, ("%x" % v) if v >= 0 else "-%x" % -v))
+                        meta.append((kind, n, v, route, None, False))
     res = {}
     for prof in ("debug", "release"):
         res[prof] = vlib.run_lines([bins[prof] + "/asmtext"], impl_lines)
